@@ -27,6 +27,11 @@ a = IpAnonymizer('zzz', None, ['8.8.0.0/16', '203.0.113.0/24'])
 a.anonymize(167837953)
 x = FileAnonymizer(anon_pwd=True, anon_ip=False, salt='third')
 x.anonymize_io(io.StringIO('password RemoveMe\nenable secret 5 $1$abcd$0rN7abcdefghijklmnopqr\n'), io.StringIO())
+# ... and anonymizers that already replaced the very words / numbers / addresses the cases contain, under other salts
+for _salt in ('tenantA', 'tenantB'):
+    y = FileAnonymizer(anon_pwd=True, anon_ip=True, salt=_salt, sensitive_words=['sea', 'seattle', 'seattle-core', 'kayak', 'kay', 'k'], as_numbers=['65001', '650010', '64512'])
+    y.anonymize_io(io.StringIO('hostname seattle-core KAYAK1 xseattlex kayak Seattle sea\nrouter bgp 65001 neighbor 1.2.3.4 remote-as 650010 64512\nip address 10.0.0.1 192.168.1.77 2001:db8::1\nusername u password RemoveMe\n'), io.StringIO())
+del y
 """
 
 
@@ -54,6 +59,15 @@ def run(ctx):
                 k = next((j for j in range(min(len(la), len(lb))) if la[j] != lb[j]), 0)
                 ctx.fail("output differs between two processes (PYTHONHASHSEED 0 vs %d)" % hs, {"line": c[11 + k] if 11 + k < len(c) else None, "salt": c[2], "words": c[3], "flags": c[1]},
                          {"first": la[k] if k < len(la) else a[:100], "second": lb[k] if k < len(lb) else b[:100]}, label="impl")
+    # word lists whose entries act as regexes (netconan does not escape them) with EQUAL length and overlapping matches: the alternation order must not depend on the hash seed
+    rx_cases = [textgen.pipe(["hostname site1001 site100 sitex99\n", "description link to lab-7 lab07 labs7\n"], flags="", salt="s", words=w)
+                for w in (["site100", "site\\d+"], ["lab.7", "lab-7", "lab07", "lab\\w7"], ["site1..", "site10+", "sit.100"])]
+    base = vlib.run_impl_fresh(rx_cases, hashseed="0")
+    for hs in range(1, 9 if q else 25):
+        for c, a, b in zip(rx_cases, base, vlib.run_impl_fresh(rx_cases, hashseed=str(hs), jobs=3)):
+            if a != b:
+                ctx.fail("output differs between two processes (PYTHONHASHSEED 0 vs %d) for a word list with regex-like entries of equal length" % hs,
+                         {"words": c[3], "lines": c[11:]}, {"seed0": a[:200], "seed%d" % hs: b[:200]}, label="impl")
     # after unrelated anonymizers were constructed in the same process
     env = dict(os.environ, PYTHONPATH=vlib.REPO, PYTHONHASHSEED="0", NV_PRELUDE=PRELUDE)
     p = subprocess.run([vlib.PY, "-c", "import os,sys,json,runpy\nexec(os.environ['NV_PRELUDE'])\nsys.argv=['impl_run.py']\nrunpy.run_path('%s', run_name='__main__')" % os.path.join(vlib.VERIF, "tools", "impl_run.py")],
@@ -81,17 +95,18 @@ class H(logging.Handler):
     def emit(self, r): recs.append((r.levelname, r.getMessage()))
 logging.getLogger().addHandler(H()); logging.getLogger().setLevel(logging.INFO)
 text = sys.stdin.read()
-fa = FileAnonymizer(anon_pwd=False, anon_ip=True, salt=None, sensitive_words=['seattle'])
+fa = FileAnonymizer(anon_pwd=True, anon_ip=True, salt=None, sensitive_words=['seattle'], as_numbers=['65001'])
 o = io.StringIO(); fa.anonymize_io(io.StringIO(text), o)
 print(json.dumps({'out': o.getvalue(), 'salt': fa.salt, 'records': recs}))
 """
-    text = "ip 1.2.3.4 seattle 2001:db8::1\nhost 10.9.8.7\n"
+    text = ("ip 1.2.3.4 seattle 2001:db8::1\nhost 10.9.8.7\nrouter bgp 65001\nset system tacplus-server 9.9.9.9 secret \"%s\"\nusername x password 7 0822455D0A16\n"
+            "snmp-server community RemoveMeComm RO\nauthentication-key \"%s\";\n" % (textgen.ref_encrypt9("hunter2", "Q"), textgen.ref_encrypt9("other-key", "z")))
     r1 = subprocess.run([vlib.PY, "-c", code], input=text, capture_output=True, text=True, env=dict(os.environ, PYTHONPATH=vlib.REPO), cwd="/")
     try:
         d = json.loads(r1.stdout)
         if not any(lv == "WARNING" and d["salt"] in msg for lv, msg in d["records"]):
             ctx.fail("the randomly generated salt is not reported (WARNING record)", {}, d["records"], label="impl")
-        o2 = vlib.run_impl([textgen.pipe(text.splitlines(True), flags="a", salt=d["salt"], words=["seattle"], b4=0, b6=0)])[0]
+        o2 = vlib.run_impl([textgen.pipe(text.splitlines(True), flags="pa", salt=d["salt"], words=["seattle"], asnums=["65001"], b4=0, b6=0)])[0]
         if "".join(textgen.outlines(o2)) != d["out"]:
             ctx.fail("re-running with the reported salt does not reproduce the output", {"salt": d["salt"]}, o2[:200], d["out"][:200], label="impl")
         if len(d["salt"]) != 16 or not d["salt"].isalnum():
